@@ -61,6 +61,20 @@ def gen_alts(rng, vs: List[str], k: int, mode: str) -> List[Alt]:
             x0 = x0 + w - (float(rng.choice([0.25, 0.5])) if i == 0 else -0.5)
         else:  # mixed
             x0 = x0 + w + float(rng.choice([0.125, 1, 0.0, -0.25]))
+    if mode in ("subsets", "mixed") and len(vs) >= 2 and rng.random() < (1.0 if mode == "subsets" else 0.25):
+        # alternatives that constrain different variables (or nothing at all) overlap although they share no variable
+        alts = []
+        for i in range(k):
+            r = rng.random()
+            if r < 0.2:
+                alts.append([])                                   # the alternative 'true'
+            else:
+                v = vs[i % len(vs)] if r < 0.8 else rng.choice(vs)
+                lo = float(rng.randint(-3, 1))
+                alts.append(box_alt([v], [lo], [lo + float(rng.choice([1, 2]))]) if rng.random() < 0.6 else
+                            [gen.T({v: rng.choice([1.0, -1.0])}, float(rng.randint(-2, 3)))])
+        rng.shuffle(alts)
+        return alts
     if mode == "with_empty" or rng.random() < 0.15:
         v = vs[0]
         alts.insert(rng.randint(0, len(alts)), [gen.T({v: 1.0}, 20.0), gen.T({v: -1.0}, -21.0)])
@@ -232,17 +246,19 @@ def gen_case(rng) -> Dict[str, Any]:
     nv = rng.randint(1, 4)
     vs = ["x", "y", "z", "w"][:nv]
     if r < 0.3:
-        mode = rng.choice(["disjoint", "touching", "overlapping", "mixed", "with_empty"])
+        mode = rng.choice(["disjoint", "touching", "overlapping", "mixed", "with_empty", "subsets"])
         return {"kind": "disjointness", "mode": mode, "alts": gen_alts(rng, vs, rng.randint(1, 3), mode)}
     if r < 0.5:
         alts = gen_alts(rng, vs, rng.randint(1, 3), rng.choice(["disjoint", "overlapping", "mixed"]))
         # a point on / next to a boundary of some alternative
-        a = rng.choice(alts)
         pt = {v: rng.randint(-16, 16) / 4.0 for v in vs}
-        t = rng.choice(a)
-        v = list(t["c"])[0]
-        others = sum(Fraction(c) * Fraction(pt[u]) for u, c in t["c"].items() if u != v)
-        pt[v] = float((Fraction(t["k"]) - others) / Fraction(t["c"][v])) + rng.choice([0.0, 1 / 64, -1 / 64])
+        nonempty = [a for a in alts if a]
+        if nonempty:
+            a = rng.choice(nonempty)
+            t = rng.choice(a)
+            v = list(t["c"])[0]
+            others = sum(Fraction(c) * Fraction(pt[u]) for u, c in t["c"].items() if u != v)
+            pt[v] = float((Fraction(t["k"]) - others) / Fraction(t["c"][v])) + rng.choice([0.0, 1 / 64, -1 / 64])
         return {"kind": "membership", "alts": alts, "point": pt}
     if r < 0.7:
         left = gen_alts(rng, vs, rng.randint(1, 3), "mixed")
